@@ -1,6 +1,6 @@
 """C06 — interrupt-context wake-ups and fibre events are never lost or duplicated
 (tie D; invariants over every interleaving of the main context with interrupt / nested / thread senders)."""
-import glob, hashlib, json, os, re
+import glob, hashlib, json, os, re, sys
 import vlib
 
 META = {
@@ -33,7 +33,7 @@ META = {
                   'final check, so fibre_scheduler_next may return a late wake-up although a request completed; the monitor\'s `disturbed` flag suspends its oversleep/starvation rules while a thread sender is in flight. '
                   'The executable runner (interrupt scripts at numbered gaps, nesting, thread senders, quiescent run) is proved to pass only through reachable states, and without thread senders only through '
                   'states in which no sender is inside a call.',
-    'level_note': 'dispatch_within_runq_passes is PROVED: a fibre at position i of the run queue is dispatched by one of the next i+1 uninterrupted passes (from every reachable state; hypotheses: the fibres dispatched meanwhile make no '
+    'level_note': 'Tie T2 (DESIGN 12): the message-queue arithmetic both queues of this model re-use is regenerated from messageq.c each run and proved equal to Model.Messageq (Props/C10Tie.lean; bv_decide certificates for its *_generated theorems only); event queues of 64 KiB .. 2 MiB storage are exercised on the real code by the sequential bigq probe (implementation only). dispatch_within_runq_passes is PROVED: a fibre at position i of the run queue is dispatched by one of the next i+1 uninterrupted passes (from every reachable state; hypotheses: the fibres dispatched meanwhile make no '
                   'fibre_run/fibre_kill calls of their own (bscript = [] - a body\'s fibre_kill(f) would of course remove f), runner not cut for fuel), '
                   'pass_dispatches_the_head, joins_at_the_tail; the monitor\'s `starved` verdict (a request outstanding at the beginning of nf complete undisturbed passes) additionally checks the bound on the real code. '
                   'NOT proved, only checked on every run by the correspondence (sampling + small exhaustive scopes, never called proof): implementation = model on the compared outputs; '
@@ -591,10 +591,35 @@ def corpus():
 
 
 # ----------------------------------------------------------------------------- the check
+def big_geometry_probe(ctx, exe, rng):
+    """event queues of the largest geometries the API permits (storage of 64 KiB .. 2 MiB), implementation only: `bigq` of
+    harness/h_isr.c sends stamped events in bursts and lets the handler check exactly-once / in-order / intact delivery"""
+    geos = [(17, 4096), (24, 4096), (32, 4096), (32, 65535), (3, 40000), (2, 65535), (32, 2115), (16, 4096), (8, 8), (1, 65535)]
+    geos += [(rng.range(2, 32), rng.choice([2048, 2052, 4096, 8192, 16384, rng.range(2049, 65535)])) for _ in range(4 if ctx.tier == 'quick' else 40)]
+    ops = ['reset'] + [f'bigq {d} {m} {min(6 * d + 20, 400)} {rng.range(1, 7)}' for d, m in geos] + ['--']
+    lines = vlib.run_exe([exe], '\n'.join(ops) + '\n', 300)
+    fails = [l for l in lines if l.startswith('bigq FAIL') or l.startswith('!!')]
+    ctx.cov['big_geometry_event_queues'] = {'geometries': len(geos), 'results': sum(1 for l in lines if l.startswith('bigq ok'))}
+    for o in ops[1:-1]:
+        ctx.count(('bigq', o))
+    if fails and not ctx.violations:
+        i = [k for k, l in enumerate(lines) if l in fails][0]
+        ctx.violation({'obligation': 'events sent with fibre_eventq_claim / fibre_eventq_send (returned true) are received exactly once, in order and intact, for every geometry of the event queue (real fibre.c + messageq.c, sequential)',
+                       'ops': ['reset', ops[i] if i < len(ops) else '?'], 'observed': fails[0], 'engine': 'isr (implementation only)',
+                       'how_to_rerun': 'h_isr (props.C06.harness) < ops'}, key='bigq:' + (ops[i] if i < len(ops) else fails[0]))
+    elif len([l for l in lines if l.startswith('bigq ok')]) != len(geos):
+        ctx.broken.append('correspondence: the large-geometry event queue probe did not complete: ' + ' | '.join(lines[-3:])[:300])
+
+
 def run(ctx):
     rng = vlib.Rng(ctx.seed)
-    ctx.prove(['Librfn.Props.C06'], REQUIRED)
+    # tie T2: the message queue arithmetic this engine's model re-uses is regenerated from messageq.c and proved equal to the model
+    sys.path.insert(0, os.path.dirname(os.path.abspath(__file__)))
+    import tie_common
+    tie_common.prove(ctx, ['MessageqSeq'], ['Librfn.Props.C06'], REQUIRED, 'Librfn.Props.C10Tie', 'Librfn.C10.Tie')
     exe = harness(ctx)
+    if 'VERIF_OPT' not in os.environ and 'VERIF_CFG' not in os.environ:
+        big_geometry_probe(ctx, exe, vlib.Rng(ctx.seed * 13 + 1))
     if not ctx.build_model():
         return
     quick = ctx.tier == 'quick'
@@ -669,6 +694,15 @@ def run(ctx):
 
 def replay(ctx, path):
     r = json.load(open(path))
+    if str(r.get('key', '')).startswith('bigq:'):
+        exe = harness(ctx)
+        lines = vlib.run_exe([exe], '\n'.join(r['ops']) + '\n--\n', 120)
+        for op, l in zip(r['ops'], lines):
+            print(f'{op:32s} -> {l}')
+        bad = any(l.startswith('bigq FAIL') or l.startswith('!!') for l in lines)
+        if bad:
+            print(f'VIOLATION property={ctx.pid} replay={path}')
+        return 1 if bad else 0
     if 'history' not in r:
         print('replay names a broken obligation, not a history:', r.get('obligation'))
         return 1
